@@ -349,9 +349,9 @@ def check_write_trust_iter(run, F):
     LEN, ILEN = 'self.len()', 'iter.len()'
     okv = lambda l: l.endswith('Ok(())')
     c1 = has(['(0 == %s)' % LEN], okv, lambda ef: not any('uset' in e for e in ef))
-    c2 = has(['!(0 == %s)' % LEN, '(%s == %s)' % (ILEN, LEN)], okv,
+    c2 = has(['(0 != %s)' % LEN, '(%s == %s)' % (ILEN, LEN)], okv,
              lambda ef: any('for_each' in e and 'self.uset(i, iter.next())' in e for e in ef))
-    c3 = has(['!(0 == %s)' % LEN, '!(%s == %s)' % (ILEN, LEN), '(1 == %s)' % ILEN], okv,
+    c3 = has(['(0 != %s)' % LEN, '(%s != %s)' % (ILEN, LEN), '(1 == %s)' % ILEN], okv,
              lambda ef: any('for_each' in e and 'self.uset(i, ' in e for e in ef))
     fes = [x for x in walk(fn.hir) if x.get('k') == 'MethodCall' and x['method'] == 'for_each']
     if len(fes) == 2:
@@ -366,7 +366,7 @@ def check_write_trust_iter(run, F):
         c3 = c3 and not nxt1 and len(cl1) == 1
     else:
         c2 = c3 = False
-    c4 = has(['!(0 == %s)' % LEN, '!(%s == %s)' % (ILEN, LEN), '!(1 == %s)' % ILEN],
+    c4 = has(['(0 != %s)' % LEN, '(%s != %s)' % (ILEN, LEN), '(1 != %s)' % ILEN],
              lambda l: l.startswith('Err(') or 'Err' in l, lambda ef: not any('uset' in e for e in ef))
     ranges = [x for x in walk(fn.hir) if x.get('k') == 'Range']
     r_ok = len(ranges) == 2 and all(src(r) == '0..len' for r in ranges) and \
